@@ -348,7 +348,7 @@ func (e *Engine) writeSummary(fn *ssa.Function) []bool {
 	}
 	if len(fn.Blocks) == 0 {
 		// unknown external: assume it writes through pointer and slice arguments unless known pure
-		pure := map[string]bool{"fmt.Sprintf": true, "fmt.Sprint": true, "fmt.Errorf": true, "bytes.Equal": true, "math.Floor": true,
+		pure := map[string]bool{"fmt.Sprintf": true, "fmt.Sprint": true, "fmt.Errorf": true, "bytes.Equal": true, "math.Floor": true, "math.Ceil": true, "math.Trunc": true, "math.Round": true, "math.RoundToEven": true,
 			"math.Float32frombits": true, "strings.ReplaceAll": true, "strings.TrimSuffix": true, "errors.New": true}
 		if !pure[fn.String()] {
 			for i := range res {
